@@ -47,12 +47,32 @@ CHECKS = {
  "C16": ("refinement proof (Lean 4): Queue over the heap list model is FIFO, Stack is LIFO, for all interleavings from the zero value",
          "C16.queue_refines/stack_refines/peek_is_next/empty_returns_zero_false_and_stays_usable. Tie: random and exhaustive (length <= 6) interleavings.",
          "§8 C16"),
+ "C05": ("proof (Lean 4) at specification level (alternation, counts) + sequential refinement of Set to the spec; concurrent executions: trace acceptance for linearizability (Lean-judged), not proved",
+         "C05.alternate/alternate_from/has_between (for every sequential history of the set specification the successful Add/Remove of a value alternate starting with Add; #okAdd-#okRemove in {0,1} = membership), C05.atomic_seq (Set.Add/Remove/Has are exactly one LoadOrStore/LoadAndDelete/Load), C05.seq_history (sequential runs of the model equal the specification). That concurrent executions linearize to such histories is checked on real executions: every schedule with <= 2 preemptions of a program catalogue under the controlled scheduler, random schedules, native runs (also under -race), each judged by the Lean driver.",
+         "§8 C05"),
+ "C09": ("invariant proofs (Lean 4) over a transition system of keyed mutexes on an atomic map: agreement on one mutex per key, mutual exclusion, readers-xor-writer, cross-key independence, try-lock; trace acceptance under a controlled scheduler",
+         "C09.agree/mutex/rw/independent/independent_los/independent_free/try/try_held/try_alone/clear_proviso_needed for all schedules, any number of goroutines. Tie: executions of the real KeyedMutex/KeyedRWMutex under the controlled scheduler (all schedules with <= 2 preemptions of a catalogue incl. the first-use race, plus random), API-level traces accepted by the Lean transition system and checked against the occupancy predicate.",
+         "§8 C09"),
+ "C17": ("invariant proofs (Lean 4) over a transition system of sync.Once's algorithm + the OnceN wrappers: exactly once, same results, return after completion, for all schedules and any number of callers; event-trace acceptance",
+         "C17.exactly_once/returned_implies_invoked_and_finished/same_results/after_completion(_ret)/fend_records/result_stable/spec_holds. Tie: native executions with gated functions, event traces (call/fstart/fend/ret) accepted by the Lean system and checked against the history predicate; race-detector runs as observation.",
+         "§8 C17"),
+ "C18": ("proofs (Lean 4): generic atomic-object linearizability theorem; AtomicValue wrapper = register; Pool wrapper over the sync.Pool contract: no double hand-out, source of every Get, race freedom over regenerated plain-access facts",
+         "C18.AtomicObj.linearizable/lin_in_interval, register, load_zero_before_store, load_latest, swap_returns_previous, cas_iff_equal, pool_no_double, pool_get_source, pool_get_result, pool_linearizable, pool_race_free, gen_pool_no_plain_stores, gen_pool_race_free (plain stores to receiver state in Get/Put regenerated from pool.go every run). Tie: native histories judged for linearizability by the Lean driver; the same scenarios under the Go race detector (a report is a violation).",
+         "§8 C18"),
+ "C19": ("proofs (Lean 4): queued receivers equal take/drop for every capacity/content/closed/limit; send_iff/recv_iff over a channel transition system with arbitrary environment; outcome-set acceptance of timed scenarios",
+         "C19.recvQueued/recvQueuedFull (exact), send_iff, recv_iff, recv_closed_drained, nonpositive_timeout_blocks (all schedules of helper, peer, timer, cancellation). Tie: queued receivers exhaustively (capacity <= 5 x fill x closed x limit <= 7) against model and specification; timed helpers: the real outcome must be in the outcome set the Lean scenario system allows and satisfy conservation.",
+         "§8 C19"),
  "C20": ("proof (Lean 4) about BitVec kernels regenerated from math.go/util.go per integer width: Digits10 ladder, DigitsSign10, Abs, Clamp, Clamp01, Compare, Less; folds for Min/Max/Sum/Product",
          "C20.digits10_T/digitsSign10_T (all 8 integer types, signed minima included) are proved about Gen.Math.* regenerated from the Go AST on every run via one ladder lemma; abs/clamp/clamp01/compare/less likewise; min/max/sum/product/coal/tern about the model. Tie: all 8-bit values, boundary-dense 16/32/64-bit samples, pairs/triples.",
          "§8 C20"),
 }
 LEVEL_NOTES = {
- "C04": "Proved: sequential half (all single-goroutine histories, unbounded). NOT yet covered by this check: the concurrent half (linearizability under interleavings, Range under concurrency, data-race freedom) — see DESIGN §13 fallback ladder.",
+ "C05": "Proved: specification-level statements and the sequential refinement. NOT proved: that every concurrent execution of sync2.Set linearizes (it rests on sync2.Map's concurrent behaviour); that part is exploration: all schedules within a preemption bound of a fixed program catalogue + random + native, judged by the Lean driver. Data races: race detector observation only.",
+ "C09": "The map inside the keyed mutex is modelled as ATOMIC (MapAtomic), justified by C04 whose concurrent half is validated but not proved; sync.Mutex/RWMutex by contract; 'never delays' proved as 'never disables'.",
+ "C17": "sync.Once is modelled by its algorithm (done flag + mutex); Go memory-model visibility of the result fields is trusted (follows from sync.Once's happens-before).",
+ "C18": "atomic.Value and sync.Pool are modelled by contract; race freedom is a theorem about the model's plain-access sets tied to the source by regenerated facts, plus race-detector observation.",
+ "C19": "Channels, select, timers, contexts by contract; wall-clock timing is not modelled (a timer is a nondeterministic choice); scenario systems assume the timer cannot fire before the helper first polls its select (promptPoll), the theorems do not.",
+ "C04": "Proved: sequential half (all single-goroutine histories, unbounded). NOT proved: the concurrent half. It is checked by exploration only: API-level histories of the real code under the controlled scheduler (all schedules with <= 2 preemptions of a program catalogue, random programs/schedules) and native runs, judged by the Lean driver for linearizability to map[K]V and for the Range predicate; data races: race detector observation. See DESIGN §13 fallback ladder.",
 }
 REASONS = {}
 
